@@ -40,7 +40,7 @@ def gen_life(rng, exe):
             lines.append("(ev/spawn (ev/sleep %s) (mark \"%s\"))" % (d, m))
             expect.add(m)
         elif k == "thread":
-            lines.append("(ev/spawn (def r (ev/thread (fn [&] (os/sleep %s) 7) nil :a)) (mark \"%s\"))" % (d, m))
+            lines.append("(ev/spawn (def r (ev/thread (fn [&] (os/sleep %s) 7))) (mark \"%s\"))" % (d, m))
             expect.add(m)
         elif k == "thread-nowait":
             lines.append("(def tc%d (ev/thread-chan 1)) (ev/thread (fn [&] (os/sleep %s) (ev/give tc%d :done)) nil :n) (ev/spawn (ev/take tc%d) (mark \"%s\"))" % (i, d, i, i, m))
@@ -146,12 +146,12 @@ CYCLES = {
     "spawn-failed": "(bench (fn [] (try (os/spawn [\"/nonexistent-program-xyz\"] :p {:out :pipe :err :pipe :in :pipe}) ([e] nil))))",
     "channel-traffic": "(def ch (ev/chan 2)) (bench (fn [] (ev/spawn (ev/give ch @[1 2 3])) (ev/take ch)))",
     "thread-channel-traffic": "(def a (ev/thread-chan 4)) (def b (ev/thread-chan 4)) (ev/thread (fn [&] (forever (def m (ev/take a)) (when (= m :stop) (break)) (ev/give b m))) nil :n) (bench (fn [] (ev/give a @{:k [1 2 3]}) (ev/take b)))",
-    "threads-start-finish": "(bench (fn [] (ev/thread (fn [&] 1) nil :a)))",
+    "threads-start-finish": "(bench (fn [] (ev/thread (fn [&] 1))))",
     "threads-nowait": "(def done (ev/thread-chan 8)) (bench (fn [] (ev/thread (fn [&] (ev/give done 1)) nil :n) (ev/take done)))",
     "cancelled-reads": "(def [r w] (os/pipe)) (bench (fn [] (def f (ev/spawn (try (ev/read r 10) ([e] nil)))) (ev/sleep 0) (ev/cancel f :x) (ev/sleep 0)))",
     "cancelled-sleeps": "(bench (fn [] (def f (ev/spawn (try (ev/sleep 0.02) ([e] nil)))) (ev/sleep 0) (ev/cancel f :x) (ev/sleep 0)))",
     "deadlines": "(bench (fn [] (try (ev/with-deadline 0.001 (ev/sleep 0.02)) ([e] nil)) (ev/with-deadline 0.02 (ev/sleep 0))))",
-    "cancelled-thread-wait": "(bench (fn [] (def f (ev/spawn (try (ev/thread (fn [&] (os/sleep 0.005)) nil :a) ([e] nil)))) (ev/sleep 0.001) (ev/cancel f :x) (ev/sleep 0.01)))",
+    "cancelled-thread-wait": "(bench (fn [] (def f (ev/spawn (try (ev/thread (fn [&] (os/sleep 0.005))) ([e] nil)))) (ev/sleep 0.001) (ev/cancel f :x) (ev/sleep 0.01)))",
     "threaded-abstract-roundtrip": "(def to (ev/thread-chan 4)) (def back (ev/thread-chan 4)) (ev/thread (fn [&] (forever (def m (ev/take to)) (when (= m :stop) (break)) (ev/give back m) (gccollect))) nil :n) (bench (fn [] (def fresh (ev/thread-chan 1)) (ev/give fresh (string/repeat \"x\" 1000)) (ev/give to fresh) (def same (ev/take back)) (ev/take same)))",
     "select-timeouts": "(def c1 (ev/chan)) (def c2 (ev/chan)) (bench (fn [] (ev/spawn (ev/give c2 1)) (ev/select c1 c2)))",
     "gather": "(bench (fn [] (ev/gather (ev/sleep 0) (+ 1 2) (ev/sleep 0.001))))",
